@@ -77,6 +77,52 @@ func (c *Case) renderNames() []string {
 	return n
 }
 
+// ---- ExecuteBlocks: the most-derived definition of each requested block ----
+
+type BlocksCase struct {
+	Files  map[string]string `json:"files"`
+	Leaf   string            `json:"leaf"`
+	Blocks []string          `json:"blocks"`
+	Want   map[string]string `json:"want"`
+	Label  string            `json:"label"`
+}
+
+func (c *BlocksCase) ID() string {
+	return fmt.Sprintf("ExecuteBlocks %s %v %v", c.Label, c.Blocks, c.Files)
+}
+
+func (c *BlocksCase) Exec(t *eng.T) {
+	t.Nontrivial()
+	set, _ := px.NewSet(c.Files)
+	tpl, out := px.CompileFile(set, c.Leaf)
+	if tpl == nil {
+		t.Fail("blocks:harness", "%s does not compile: %s", c.ID(), out)
+		return
+	}
+	var res map[string]string
+	var err error
+	site, msg, pan := eng.Protect(func() { res, err = tpl.ExecuteBlocks(ctx(), c.Blocks) })
+	t.Outcome(fmt.Sprint(res, err, pan))
+	if pan {
+		t.Fail("blocks:panic", "%s panics: %s (%s)", c.ID(), msg, site)
+		return
+	}
+	if err != nil {
+		t.Fail("blocks:error", "%s fails: %v", c.ID(), err)
+		return
+	}
+	for _, b := range c.Blocks {
+		if got, ok := res[b]; !ok || got != c.Want[b] {
+			t.Fail("blocks:most-derived:"+c.Label, "%s: block %q renders %q (present %v), the most-derived definition renders %q", c.ID(), b, got, ok, c.Want[b])
+			return
+		}
+	}
+	// the full rendering still follows the same resolution
+	if o := px.Exec(tpl, ctx()); o.Failed() {
+		t.Fail("blocks:error", "%s: Execute after ExecuteBlocks fails: %s", c.ID(), o)
+	}
+}
+
 // ---- invalid shapes ----
 
 type BadCase struct {
@@ -119,8 +165,11 @@ type chain struct {
 	// superForm: how a definition "with Super" spells it: 0 <{{ block.Super }}>, 1 twice in one definition,
 	// 2 tested in an if before it is printed
 	superForm int
-	shape     string
-	levels    []*level // levels[0] = base
+	// blocksFirst: child templates write their block definitions BEFORE the extends tag (extends only has to be at
+	// root level, not first)
+	blocksFirst bool
+	shape       string
+	levels      []*level // levels[0] = base
 }
 
 func superSrc(form int) string {
@@ -192,7 +241,9 @@ func (c *chain) files() map[string]string {
 			}
 			b.WriteString(defSrc("b") + "]")
 		} else {
-			fmt.Fprintf(&b, "{%% extends \"t%d\" %%}", lv-1)
+			if !c.blocksFirst {
+				fmt.Fprintf(&b, "{%% extends \"t%d\" %%}", lv-1)
+			}
 			if L.junk {
 				b.WriteString("JUNK{% set z = 1 %}{{ 7 }}")
 			}
@@ -209,6 +260,9 @@ func (c *chain) files() map[string]string {
 				if L.junk {
 					b.WriteString("\n")
 				}
+			}
+			if c.blocksFirst {
+				fmt.Fprintf(&b, "{%% extends \"t%d\" %%}", lv-1)
 			}
 		}
 		files[fmt.Sprintf("/t%d", lv)] = b.String()
@@ -341,8 +395,14 @@ func run(r *eng.Runner) {
 				renders = append(renders, Render{Name: fmt.Sprintf("/t%d", j), Want: eng.Q(c.render(j))})
 			}
 			r.Do(&Case{Files: files, Renders: renders, Label: shape})
+			// the same chain with the block definitions written in front of the extends tags
+			if c.superForm == 0 && !c.blocksFirst && n >= 2 && n <= formDepth {
+				c2 := *c
+				c2.blocksFirst = true
+				emitForm(&c2)
+			}
 			// the same chain with the other spellings of Super (only where some definition uses it)
-			if c.superForm == 0 && n <= formDepth {
+			if c.superForm == 0 && !c.blocksFirst && n <= formDepth {
 				uses := false
 				for _, L := range c.levels {
 					for _, d := range L.defs {
@@ -443,6 +503,26 @@ func run(r *eng.Runner) {
 		}
 	}
 
+	r.Group("execute-blocks", "c10.blocks", "ExecuteBlocks on the leaf of 2- and 3-level chains, the requested blocks spread over the levels (the leaf defines at least one of them): a block whose most-derived definition renders nothing stays empty, an inherited block comes from the nearest ancestor that defines it")
+	{
+		base3 := "[{% block note %}N0{% endblock %}|{% block title %}T0{% endblock %}|{% block foot %}F0{% endblock %}]"
+		cases := []BlocksCase{
+			{Label: "empty-override", Leaf: "/leaf", Blocks: []string{"note", "title"}, Want: map[string]string{"note": "", "title": "T0"},
+				Files: map[string]string{"/base": base3, "/leaf": `{% extends "base" %}{% block note %}{% if no %}x{% endif %}{% endblock %}`}},
+			{Label: "empty-override-first", Leaf: "/leaf", Blocks: []string{"title", "note"}, Want: map[string]string{"note": "", "title": "T0"},
+				Files: map[string]string{"/base": base3, "/leaf": `{% extends "base" %}{% block note %}{% endblock %}`}},
+			{Label: "three-levels", Leaf: "/leaf", Blocks: []string{"note", "title", "foot"}, Want: map[string]string{"note": "N2", "title": "T1", "foot": "F0"},
+				Files: map[string]string{"/base": base3, "/mid": `{% extends "base" %}{% block title %}T1{% endblock %}{% block note %}N1{% endblock %}`, "/leaf": `{% extends "mid" %}{% block note %}N2{% endblock %}`}},
+			{Label: "three-levels-empty-middle", Leaf: "/leaf", Blocks: []string{"note", "title", "foot"}, Want: map[string]string{"note": "N2", "title": "", "foot": "F0"},
+				Files: map[string]string{"/base": base3, "/mid": `{% extends "base" %}{% block title %}{% if no %}t{% endif %}{% endblock %}`, "/leaf": `{% extends "mid" %}{% block note %}N2{% endblock %}`}},
+			{Label: "all-in-leaf", Leaf: "/leaf", Blocks: []string{"note", "title"}, Want: map[string]string{"note": "n", "title": "t"},
+				Files: map[string]string{"/base": base3, "/leaf": `{% extends "base" %}{% block note %}n{% endblock %}{% block title %}t{% endblock %}`}},
+		}
+		for i := range cases {
+			r.Do(&cases[i])
+		}
+	}
+
 	r.Group("invalid", "c10.bad", "invalid shapes: second extends, extends inside a block / if / for, duplicate block names (same level, nested, in a child), extends of a missing file, extends with a non-string argument")
 	base := "B{% block a %}a0{% endblock %}"
 	bads := map[string]string{
@@ -486,6 +566,7 @@ func run(r *eng.Runner) {
 func init() {
 	eng.RegisterCase("c10.case", func() eng.Case { return &Case{} })
 	eng.RegisterCase("c10.bad", func() eng.Case { return &BadCase{} })
+	eng.RegisterCase("c10.blocks", func() eng.Case { return &BlocksCase{} })
 	eng.Register(&eng.Check{
 		ID:    "C10",
 		Title: "Inheritance: the most-derived block wins, Super reaches the parent",
